@@ -234,7 +234,9 @@ func execC04Remote(a c04Args) CaseOut {
 		if s1.State != finalSeen.State || s1.StdoutSize != finalSeen.StdoutSize {
 			out.violate("crash:final-state-changed:at="+at, "%s: unit %s had been reported %s with %d bytes; after the restart it is state %d (%s) with %d bytes", ctx, id, finalSeen.StateName, finalSeen.StdoutSize, s1.State, s1.Detail, s1.StdoutSize)
 		} else if finalSeen.State == 2 {
-			hdr, data, rerr := d1b.results(id, 0, 20*time.Second)
+			// the local copy of the output may still have been behind the record at the crash: the mirror has to connect
+			// to n2 again first (route, retry delays), which takes a while on a busy machine
+			hdr, data, rerr := d1b.results(id, 0, 120*time.Second)
 			if !strings.HasPrefix(hdr, "Streaming") || string(data) != input {
 				out.violate("crash:output-lost:at="+at, "%s: unit %s finished with output %q; after the restart results give %q / %q (%v)", ctx, id, input, hdr, trunc(string(data), 60), rerr)
 			}
